@@ -94,9 +94,14 @@ def run(ctx):
         raise RuntimeError(f"vacuous universe: {stats}")
     # a locus decoded under a type must carry the genome of the TYPE even when another genome has the same contigs
     Lt = H.types.tlocus(H.rgs["vrg"])
-    back = Lt._from_json(Lt._to_json(H.Locus("MT", 1, reference_genome=H.rgs["vrg"])))
-    if back.reference_genome is H.decoy or tv.abstract(H, back)["rg"] != "vrg":
-        raise RuntimeError("harness: genome of a decoded locus is not reported")
+    try:
+        back = Lt._from_json(Lt._to_json(H.Locus("MT", 1, reference_genome=H.rgs["vrg"])))
+        wrong = back.reference_genome is H.decoy or tv.abstract(H, back)["rg"] != "vrg"
+        why = "decoded under another genome"
+    except Exception as e:  # noqa: BLE001  the code under test raised on a well-typed value
+        wrong, why = True, f"{type(e).__name__}: {e}"[:200]
+    if wrong and not any(v["sig"].startswith("json:locus") for v in ctx.viol):
+        ctx.violation("json:locus:genome", {"type": "locus<vrg>", "value": "MT:1", "outcome": why})
 
     # ---- outside the universe, reported only -----------------------------------------------------------------
     T = H.types
